@@ -454,7 +454,17 @@ func c19RoundTrip(c *fw.Ctx, fixes []fix, layout geom.Layout) {
 var c19Pipe bytes.Buffer
 
 func c19Pos(r *fw.Rand) (lon, lat float64) {
-	switch r.Intn(8) {
+	switch r.Intn(9) {
+	case 8: // a hair below (or above) a whole degree or a whole minute
+		eps := []float64{1e-11, 1e-12, 3e-12, 1e-13, 1e-9, 5e-10}[r.Intn(6)] * float64(1-2*r.Intn(2))
+		lo, la := float64(r.Range(-179, 179)), float64(r.Range(-89, 89))
+		if r.Bool() {
+			lo, la = lo+float64(r.Range(0, 59))/60, la+float64(r.Range(0, 59))/60
+		}
+		if r.Chance(1, 3) {
+			return math.Nextafter(lo, lo+eps), math.Nextafter(la, la+eps)
+		}
+		return lo + eps, la + eps
 	case 0:
 		return []float64{180, -180, 0, math.Copysign(0, -1)}[r.Intn(4)], []float64{90, -90, 0, math.Copysign(0, -1)}[r.Intn(4)]
 	case 1: // just inside the limits
